@@ -29,14 +29,14 @@ func init() {
 			"Stalled reporter (1 case in 40, 4 episodes each): the REPORTING goroutine is held up between handing its value over and starting to wait for the answer (its context, which stays alive, is an ordinary context whose Done method waits for observed hook events), while the monitor answers and then exits (Dials context cancelled / every source Done), installs another source's report, or idles; the call must then return nil iff its value was installed (install log, View) and the verification error iff Verify rejected it, and the history must linearize. " +
 			"distinct_nontrivial = distinct (placement, layer class, source kind, outcome sequence) signatures with >=1 context-ended report, plus distinct (meanwhile, through Blank, layer class, outcome) of stalled-reporter episodes.",
 		Assumptions: []string{"Blank.SetSource(static inner source) is modelled as a blocking report of the inner source's value"},
-		MinDistinct: map[string]int{"quick": 600, "thorough": 60000},
+		MinDistinct: map[string]int{"quick": 600, "thorough": 24000},
 		MinCounters: map[string]map[string]int64{
 			"quick":    {"reports_judged_with_queue_full": 100, "reporter_stalled_between_handover_and_wait": 100, "reporter_stalled_while_monitor_answered_and_exited": 50, "linearizable_histories": 250, "context_ended_reports": 150, "followups_after_cancellation": 150, "cancel_inside_verify": 20, "cancel_at_reply": 20},
-			"thorough": {"linearizable_histories": 300000, "context_ended_reports": 150000, "reporter_stalled_between_handover_and_wait": 10000, "reporter_stalled_while_monitor_answered_and_exited": 5000},
+			"thorough": {"linearizable_histories": 100000, "context_ended_reports": 50000, "reporter_stalled_between_handover_and_wait": 3000, "reporter_stalled_while_monitor_answered_and_exited": 1500},
 		},
 		Plan: func(tier string) fw.Plan {
 			if tier == "thorough" {
-				return fw.Plan{Shards: 16, CasesPerShard: 25000, TimeoutSec: 3000}
+				return fw.Plan{Shards: 16, CasesPerShard: 10000, TimeoutSec: 3000}
 			}
 			return fw.Plan{Shards: 8, CasesPerShard: 250, TimeoutSec: 900}
 		},
@@ -389,7 +389,7 @@ func c07EventsPollers(w *fw.Worker, i int, r *fw.Rand) {
 			}
 		}()
 	}
-	per := w.Pick(2500, 30000)
+	per := w.Pick(2500, 6000)
 	type bad struct {
 		k   int
 		err error
